@@ -1,6 +1,7 @@
 package mon
 
 import (
+	"context"
 	"encoding/json"
 	"errors"
 	"fmt"
@@ -8,8 +9,10 @@ import (
 	"math/rand/v2"
 	"net/http"
 	"strings"
+	"time"
 
 	"github.com/gookit/rux"
+	"github.com/gookit/rux/pkg/handlers"
 )
 
 func init() { Monitors["C08"] = runC08 }
@@ -310,6 +313,9 @@ type c08Prog struct {
 	NoFlusher  bool     // the underlying writer is no http.Flusher
 	Direct     bool     // the (single) handler is mounted as a plain http.Handler: rux.HandlerFunc(h).ServeHTTP, no router
 	Redispatch []respOp // what the handler of /y does when the (single) handler re-dispatches
+	// pkg/handlers.Timeout is the first global middleware and the request's deadline has passed already: when
+	// the chain comes back to it the middleware records 504 (a status setting like any other, behind all others)
+	ExpiredBehindTimeout bool
 }
 
 func (p c08Prog) describe() any {
@@ -338,6 +344,9 @@ func (p c08Prog) describe() any {
 	}
 	if p.Direct {
 		hs = append(hs, "the handler is used as a plain http.Handler (rux.HandlerFunc.ServeHTTP), without a router")
+	}
+	if p.ExpiredBehindTimeout {
+		hs = append(hs, "pkg/handlers.Timeout first, the request's deadline has already passed")
 	}
 	return map[string]any{"method": p.Method, "handlers": hs, "writer_fault": fmt.Sprintf("write #%d accepts %d bytes then errors (0 = none)", p.FailAt, p.Short)}
 }
@@ -390,7 +399,7 @@ func (p c08Prog) nontrivial() bool {
 }
 
 func runC08(e *Env) {
-	e.Rule = "programs of response operations {SetStatus(code) for code in -1,0,100,101,200,201,204,301,404,500,599; SetHeader; Resp.Write incl. empty; WriteString; Flush; http.Error; http.Redirect; Text; JSON; NoContent; AddError; io.Copy from a reader without WriteTo; a re-dispatch of the context through HandleContext in single-handler chains} distributed over the before-Next and after-Next phases of a 1..4 handler chain (global middleware, route middleware, main), GET/POST, with or without an OnError hook (doing nothing / status / status+body), on a recording writer (with or without io.ReaderFrom, like net/http's) with a fault plan (n-th write accepts k bytes and errors); plus ALL sequences of <= 4 operations over a 9-operation alphabet in a single handler under 4 fault plans; plus chains that do nothing. Observed: the ordered call log WriteHeader/Write/Flush at the underlying writer, body bytes, Context.Length() after dispatch. Oracle: reference state machine unset -> recorded -> committed. Non-trivial: contains a flush, a zero-length write, a failing write, or a status change after the commit; distinct by program. The operation alphabet also has the Stream helper (status, Content-Type, bytes of a reader that may be empty)."
+	e.Rule = "programs of response operations {SetStatus(code) for code in -1,0,100,101,200,201,204,301,404,500,599; SetHeader; Resp.Write incl. empty; WriteString; Flush; http.Error; http.Redirect; Text; JSON; NoContent; AddError; io.Copy from a reader without WriteTo; a re-dispatch of the context through HandleContext in single-handler chains} distributed over the before-Next and after-Next phases of a 1..4 handler chain (global middleware, route middleware, main), GET/POST, with or without an OnError hook (doing nothing / status / status+body), on a recording writer (with or without io.ReaderFrom, like net/http's) with a fault plan (n-th write accepts k bytes and errors); plus ALL sequences of <= 4 operations over a 9-operation alphabet in a single handler under 4 fault plans; plus chains that do nothing. Observed: the ordered call log WriteHeader/Write/Flush at the underlying writer, body bytes, Context.Length() after dispatch. Oracle: reference state machine unset -> recorded -> committed. Non-trivial: contains a flush, a zero-length write, a failing write, or a status change after the commit; distinct by program. The operation alphabet also has the Stream helper (status, Content-Type, bytes of a reader that may be empty). A sixth of the routed programs run behind pkg/handlers.Timeout with a request whose deadline has already passed (the middleware records 504 when the chain comes back to it)."
 	e.Assumptions = []string{
 		"helpers are expanded into the primitives their documentation promises (http.Error = status + message line, Text = status + bytes, JSON = status + encoded value + newline, NoContent = status 204)",
 		"writes that may fail go through Resp.Write (WriteString/Text panic on a write error by contract and are only used without a fault plan)",
@@ -523,6 +532,10 @@ func runC08(e *Env) {
 				p.Pre[i] = append(p.Pre[i], respOp{Kind: "adderror"})
 			}
 		}
+		if !p.Direct && p.Redispatch == nil && chance(r, 1, 6) {
+			p.ExpiredBehindTimeout = true
+			t.Count("programs.expired_deadline_behind_timeout_middleware", 1)
+		}
 		c08Check(t, p)
 	})
 	e.Require("programs.silent", 50)
@@ -603,6 +616,9 @@ func c08Check(t *T, p c08Prog) {
 			}
 		}
 	}
+	if p.ExpiredBehindTimeout {
+		r.Use(handlers.Timeout(time.Hour))
+	}
 	for i := 0; i < p.NGlobal && i < n-1; i++ {
 		r.Use(mk(i))
 	}
@@ -641,7 +657,13 @@ func c08Check(t *T, p c08Prog) {
 		t.Count("programs.handlerfunc_as_http_handler", 1)
 		entry = mk(0) // rux.HandlerFunc implements http.Handler
 	}
-	if pv, panicked := catch(func() { entry.ServeHTTP(w, NewReq(p.Method, "/x")) }); panicked {
+	creq := NewReq(p.Method, "/x")
+	if p.ExpiredBehindTimeout {
+		dctx, cancel := context.WithDeadline(creq.Context(), time.Unix(1, 0))
+		defer cancel()
+		creq = creq.WithContext(dctx)
+	}
+	if pv, panicked := catch(func() { entry.ServeHTTP(w, creq) }); panicked {
 		t.Fail("servehttp-panic", "program %v panicked: %v", p.describe(), pv)
 		return
 	}
@@ -667,6 +689,9 @@ func c08Check(t *T, p c08Prog) {
 		default:
 			m.step(o)
 		}
+	}
+	if p.ExpiredBehindTimeout {
+		m.step(respOp{Kind: "status", Code: 504})
 	}
 	if p.HasHook && m.errRec {
 		// the OnError hook runs after the chain when an error was recorded
